@@ -14,6 +14,7 @@ import (
 	"math/rand"
 	"reflect"
 	"testing/iotest"
+	"time"
 
 	"gitlab.com/gomidi/midi/v2/smf"
 
@@ -357,7 +358,7 @@ var errFault = errors.New("injected I/O fault")
 
 // budgetWriter accepts exactly `budget` bytes (mode "once": fails exactly one write, then recovers).  mode "short": the write that crosses the budget stores what fits
 // and returns (n < len(p), error); mode "next": it stores nothing of that write and returns (0, error); "shortwrite" / "eof": as "short" / "next" with
-// io.ErrShortWrite / io.EOF as the error value; "onceshort": one short write with an error, then the destination recovers;
+// io.ErrShortWrite / io.EOF as the error value; "closedpipe" as "next" with io.ErrClosedPipe, "epipe" / "enospc" as "short" with *os.PathError{EPIPE / ENOSPC}; "onceshort": one short write with an error, then the destination recovers;
 // "fullerr": one write is accepted completely AND reported as failed, everything after it succeeds.
 type budgetWriter struct {
 	budget int
@@ -373,6 +374,12 @@ func (w *budgetWriter) err() error {
 		return io.ErrShortWrite
 	case "eof":
 		return io.EOF
+	case "closedpipe": // the consumer end of an io.Pipe was closed
+		return io.ErrClosedPipe
+	case "epipe": // the process at the other end of a pipe / socket went away
+		return &os.PathError{Op: "write", Path: "|1", Err: syscall.EPIPE}
+	case "enospc":
+		return &os.PathError{Op: "write", Path: "/mnt/full/x.mid", Err: syscall.ENOSPC}
 	}
 	return errFault
 }
@@ -394,7 +401,7 @@ func (w *budgetWriter) Write(p []byte) (int, error) {
 		w.got += len(p)
 		return len(p), w.err()
 	}
-	if w.mode == "short" || w.mode == "shortwrite" || w.mode == "onceshort" {
+	if w.mode == "short" || w.mode == "shortwrite" || w.mode == "onceshort" || w.mode == "epipe" || w.mode == "enospc" {
 		n := w.budget - w.got
 		w.got += n
 		return n, w.err()
@@ -465,7 +472,10 @@ func runWFault(rec *WFaultRec) {
 		}
 	}
 	for _, k := range ks {
-		for _, mode := range []string{"short", "next", "once", "onceshort", "fullerr", "shortwrite", "eof"} {
+		for mi, mode := range []string{"short", "next", "once", "onceshort", "fullerr", "shortwrite", "eof", "closedpipe", "epipe", "enospc"} {
+			if mi >= 7 && (k+mi)%3 != 0 && k > 40 { // the error identities of real destinations: a third of the offsets each
+				continue
+			}
 			w := &budgetWriter{budget: k, mode: mode}
 			f := WFault{K: k, Mode: mode}
 			var s2 *smf.SMF
@@ -519,6 +529,39 @@ func (f *faultReader) Read(p []byte) (int, error) {
 	return n, nil
 }
 
+// richSource is a failing source that looks like an open regular file: besides Read it has Stat (a regular file of the full
+// size), Seek, Size, Len and Close -- everything a reader could use to "know" how much there is without reading it.
+type richSource struct {
+	faultReader
+}
+
+type richInfo struct{ n int64 }
+
+func (i richInfo) Name() string       { return "x.mid" }
+func (i richInfo) Size() int64        { return i.n }
+func (i richInfo) Mode() os.FileMode  { return 0o644 }
+func (i richInfo) ModTime() time.Time { return time.Unix(1700000000, 0) }
+func (i richInfo) IsDir() bool        { return false }
+func (i richInfo) Sys() interface{}   { return nil }
+
+func (s *richSource) Stat() (os.FileInfo, error) { return richInfo{int64(len(s.data))}, nil }
+func (s *richSource) Size() int64                { return int64(len(s.data)) }
+func (s *richSource) Len() int                   { return len(s.data) - s.pos }
+func (s *richSource) Close() error               { return nil }
+func (s *richSource) Seek(off int64, whence int) (int64, error) {
+	switch whence {
+	case io.SeekCurrent:
+		off += int64(s.pos)
+	case io.SeekEnd:
+		off += int64(len(s.data))
+	}
+	if off < 0 || off > int64(len(s.data)) {
+		return int64(s.pos), errors.New("seek out of range")
+	}
+	s.pos = int(off)
+	return off, nil
+}
+
 type RFault struct {
 	K    int    `json:"k"`
 	Frag int    `json:"frag"`
@@ -549,11 +592,15 @@ func runRFault(rec *RFaultRec) {
 		if !(k < 150 || k > n-100 || k%step == 0) {
 			continue
 		}
-		for _, frag := range []int{0, 1} {
+		for _, frag := range []int{0, 1, -1} { // -1: the failing source looks like an open regular file (richSource)
 			if atomic.LoadInt32(&hungReads) > 0 {
 				break
 			}
-			v, _, _ := readFrom(&faultReader{data: rec.Bytes, k: k, frag: frag})
+			var src io.Reader = &faultReader{data: rec.Bytes, k: k, frag: frag}
+			if frag < 0 {
+				src = &richSource{faultReader{data: rec.Bytes, k: k}}
+			}
+			v, _, _ := readFrom(src)
 			rec.Faults = append(rec.Faults, RFault{K: k, Frag: frag, Kind: v.Kind, Msg: v.Msg})
 		}
 	}
@@ -621,7 +668,28 @@ func cmdSmfGen(args []string) {
 			w.Put(rec)
 		case "any":
 			rec := &AnyRec{ID: i, Judge: *judge}
-			switch k := r.Intn(10); {
+			k := r.Intn(10)
+			if i%80 == 17 {
+				k = -1
+			}
+			switch {
+			case k < 0: // ONE long track: thousands of short events (running status), a few KiB of input
+				nev := []int{6000, 9000, 14000, 20000}[r.Intn(4)]
+				body := []byte{0x00, 0xC0 | byte(r.Intn(16)), byte(r.Intn(128))}
+				if r.Intn(2) == 0 {
+					body = []byte{0x00, 0x90 | byte(r.Intn(16)), byte(r.Intn(128)), byte(r.Intn(128))}
+				}
+				nd := len(body) - 2
+				for e := 1; e < nev; e++ {
+					body = append(body, byte(r.Intn(2)))
+					for j := 0; j < nd; j++ {
+						body = append(body, byte(r.Intn(128)))
+					}
+				}
+				body = append(body, 0x00, 0xFF, 0x2F, 0x00)
+				b := append([]byte("MThd"), 0, 0, 0, 6, 0, 0, 0, 1, 0, 96)
+				b = append(append(append(b, []byte("MTrk")...), be32(len(body))...), body...)
+				rec.Bytes, rec.Src = b, "longtrack"
 			case k < 2:
 				rec.Bytes, rec.Src = payload(r, r.Intn(200), false), "random"
 			case k < 4:
@@ -653,6 +721,9 @@ func cmdSmfGen(args []string) {
 			w.Put(rec)
 		case "sched":
 			rec := &SchedRec{ID: i, Judge: *judge, Bytes: validFile(r, *big && i%8 == 0, feat), Cut: -1, Seed: r.Int63()}
+			if i%5 == 4 {
+				rec.Bytes = oddLayout(r, rec.Bytes, feat)
+			}
 			if i%3 == 2 && len(rec.Bytes) > 1 {
 				rec.Cut = 1 + r.Intn(len(rec.Bytes)-1)
 			}
